@@ -131,6 +131,11 @@ def guard_facts(ev, fi, node):
         for x in leaves:
             if x.get("k") == "BinaryOperator" and x.get("op") in ("<=", ">=", "<", ">"):
                 l, r = x["c"][0], strip(x["c"][1])
+                l0 = strip(l)
+                if l0.get("k") in ("FloatingLiteral", "IntegerLiteral") and float(l0["v"]) == 0.0 and r.get("k") not in ("FloatingLiteral", "IntegerLiteral"):
+                    # 0 op e  is  e op' 0
+                    x = dict(x, op={"<=": ">=", ">=": "<=", "<": ">", ">": "<"}[x["op"]], c=[x["c"][1], x["c"][0]])
+                    l, r = x["c"][0], strip(x["c"][1])
                 if r.get("k") in ("FloatingLiteral", "IntegerLiteral") and float(r["v"]) == 0.0:
                     try:
                         le = sp.sympify(ev.ev(l))
